@@ -30,6 +30,7 @@ class State:
         self.crash_at = None      # countdown of mutating events until crash
         self.crash_tear = None
         self.crash_when = 'before'
+        self.interrupted = None
         self.err_at = None
         self.err_no = None
         self.rerr_at = None
@@ -85,6 +86,12 @@ def _mutating(kind, path, extra=None):
     rel = path[len(ST.store):]
     if ST.crash_at is not None:
         if ST.crash_at == 0:
+            if ST.crash_when == 'interrupt':
+                # the process is interrupted (SIGINT/SIGTERM turned into an exception) immediately before this operation:
+                # the stack unwinds - finally blocks and context managers run - and then the process ends
+                ST.crash_at = None
+                ST.interrupted = {'crash': True, 'at': [kind, rel, 'interrupt'], 'last_wopen': None}
+                raise KeyboardInterrupt('injected interrupt')
             if ST.crash_when == 'after':
                 # die immediately AFTER this operation has been performed: the first C-function return seen by the
                 # profiler is the return of the audited call itself (python buffers of open files are lost, as in a kill)
@@ -1091,9 +1098,20 @@ def run_process(job, out_fd):
         ST.active = True
         try:
             res = getattr(pr, 'op_' + op['op'])(op)
+        except KeyboardInterrupt:
+            if ST.interrupted is None:
+                raise
+            ST.active = False
+            rec_ = dict(ST.interrupted, inv=ST.inv, fs=ST.fs, fired=ST.fired)
+            _emit(rec_)
+            os._exit(CRASH_EXIT)
         except Exception:
             res = {'harness_error': traceback.format_exc()[-1500:]}
         ST.active = False
+        if ST.interrupted is not None:
+            # the code under test swallowed the interrupt: the process still ends here
+            _emit(dict(ST.interrupted, inv=ST.inv, fs=ST.fs, fired=ST.fired))
+            os._exit(CRASH_EXIT)
         ST.crash_at = None
         sys.setprofile(None)
         ST.err_at = None
